@@ -721,7 +721,7 @@ public:
     cov["components"] = comp;
     cov["fault_kinds"] = "preemption at every AtomicValue operation, at "
                          "every task start and (60 % of the runs) at every "
-                         "task / packet event (policies uniform/burst/pct/rr), "
+                         "task / packet event (policies uniform/burst/pct/rr/after-release), "
                          "task stealing; C09: stop by step count / stop file / "
                          "simulated wall-clock jump / SIGINT and restart; C14: "
                          "process death before / after / in the middle of a "
